@@ -384,3 +384,28 @@ def is_complex(d):
 def params_of(f):
     import inspect
     return list(inspect.signature(f).parameters.values())
+
+
+def dict_keys(d):
+    return list(d.keys())
+
+
+def dict_values(d):
+    return list(d.values())
+
+
+def assoc(ks, vs, k):
+    for a, b in zip(ks, vs):
+        if a == k:
+            return b
+    return None
+
+
+def take(l, n):
+    return list(l)[:max(n, 0)]
+
+
+def dict_put(d, k, v):
+    r = dict(d)
+    r[k] = v
+    return r
